@@ -443,7 +443,10 @@ const RaceBuild = raceEnabled
 func CompileOK(text string) bool {
 	old, oldMust := useNS, useMust
 	useNS, useMust = false, false
+	genText.Store(&text)
+	genSeq.Add(1)
 	ex, _ := compile(text)
+	genSeq.Add(1)
 	useNS, useMust = old, oldMust
 	return ex != nil
 }
